@@ -107,6 +107,33 @@ def _stdlib_dir(exe):
     return None
 
 
+def load_produced(outdir=None):
+    """files compiled earlier in this check run (by the coordinator) - for sub-processes on other hosts"""
+    outdir = outdir or os.path.join(core.scratch_dir(), "produced")
+    out = []
+    try:
+        tags = sorted(os.listdir(outdir))
+    except OSError:
+        return out
+    for tag in tags:
+        resf = os.path.join(outdir, tag, "res.json")
+        try:
+            with open(resf) as f:
+                res = json.load(f)
+        except Exception:
+            continue
+        for dst in sorted(res):
+            try:
+                with open(dst, "rb") as f:
+                    data = f.read()
+            except OSError:
+                continue
+            if 50 <= len(data) <= MAX_FILE:
+                mode = dst.rsplit(".", 2)[-2]
+                out.append(BaseFile(os.path.basename(dst), dst, data, "produced:%s:%s" % (tag, mode)))
+    return out
+
+
 def produce_corpus(seed, n_xdis, n_stdlib, only_tags=None, outdir=None, workers=8):
     """Compile sources with every producer interpreter. Returns [BaseFile]."""
     outdir = outdir or os.path.join(core.scratch_dir(), "produced")
